@@ -497,7 +497,9 @@ func (sb *sandbox) do(rq fsReq) (line string, goOut string) {
 		}
 	}
 	leak := false
-	needle := sb.base
+	// the name of the temporary directory: it is part of every spelling of the host path, absolute or relative to
+	// the working directory, and of nothing a client may legitimately see
+	needle := filepath.Base(sb.base)
 	if bytes.Contains(respBody, []byte(needle)) {
 		leak = true
 	}
